@@ -19,7 +19,7 @@
  *
  * One operation per line (see coq/theories/C11/Model.v `op`):
  *   CALL k s r fa | TCALL k s fa | UCALL s r | PLT i s r arg | TPLT i s | RET s | THROW | UNWIND
- *   RESUME s r | CATCH fa | POKE s v | DUMP;  scripts are separated by a line NEXT and each runs in
+ *   RESUME s r | CATCH fa | POKE s v | VCHILD | VPARENT (after PLT <vfork> ...) | DUMP;  scripts are separated by a line NEXT and each runs in
  *   a forked child (fresh thread data and jmpbuf list); the parent prints ENDCASE <wait status>
  * After each operation one line
  *   D <idx> <record_idx> <in_exception> <target> <pops> | loc ip plt flags *loc ; ...   (bottom first)
@@ -52,6 +52,13 @@ int clock_gettime(clockid_t id, struct timespec *ts)
 	return 0;
 }
 
+/* ------------------------------------------------------------------ vfork: the "child" runs in this process */
+static pid_t fake_pid;
+pid_t getpid(void)
+{
+	return fake_pid ? fake_pid : (pid_t)syscall(SYS_getpid);
+}
+
 /* ------------------------------------------------------------------ traced functions f0..f15 */
 #define FDEF(n)                                                                                    \
 	asm(".text\n .globl f" #n "\n .type f" #n ",@function\n .p2align 8\n f" #n                \
@@ -71,7 +78,7 @@ extern void mcount_rstack_rehook_exception(struct mcount_thread_data *mtdp, unsi
 static const char *plt_names[] = {
 	"foo0",	  "foo1",    "foo2",	"foo3",	      "setjmp",	      "_setjmp", "sigsetjmp",
 	"longjmp", "siglongjmp", "__longjmp_chk", "fork", "exit", "daemon", "_Unwind_RaiseException",
-	"pthread_exit", "__sigsetjmp",
+	"pthread_exit", "__sigsetjmp", "vfork",
 };
 #define NPLT (sizeof(plt_names) / sizeof(plt_names[0]))
 #define PLTBASE 0x7000000UL
@@ -181,7 +188,7 @@ static void digest(unsigned long target, unsigned pops)
 		if (r->parent_loc >= stk && r->parent_loc < stk + 2 * NSLOT + 2)
 			loc = (r->parent_loc - stk - 1) / 2;
 		printf(" %ld %lu %d %lu %lu ;", loc, dec_(r->parent_ip),
-		       r->dyn_idx != MCOUNT_INVALID_DYNIDX, (unsigned long)r->flags,
+		       r->dyn_idx != MCOUNT_INVALID_DYNIDX, (unsigned long)(r->flags & ~MCOUNT_FL_VFORK),
 		       loc >= 0 ? dec_(*r->parent_loc) : 0UL);
 	}
 	printf("\n");
@@ -331,6 +338,22 @@ static void run_script(char **lines, int nlines)
 					return;
 			}
 		}
+		else if (!strcmp(op, "VCHILD") || !strcmp(op, "VPARENT")) {
+			/* both the child and (later) the parent come back from vfork at plthook_return */
+			fake_pid = op[1] == 'C' ? (pid_t)syscall(SYS_getpid) + 100000 : 0;
+			if (op[1] == 'P') {
+				/* the child may have left an empty shadow stack: restore_vfork() copes with that */
+				long rv[4] = { 0, 0, 0, 0 };
+				unsigned long v;
+				tick();
+				v = plthook_exit(rv);
+				if (follow(v, &target, &pops) < 0)
+					return;
+				pops++;
+			}
+			else if (follow((unsigned long)plthook_return, &target, &pops) < 0)
+				return;
+		}
 		else if (!strcmp(op, "RET")) {
 			if (follow(*SLOT(a), &target, &pops) < 0)
 				return;
@@ -346,6 +369,12 @@ static void run_script(char **lines, int nlines)
 				if (op[0] == 'R' && mtdp->in_exception)
 					mcount_rstack_rehook_exception(mtdp, (unsigned long)SLOT(a));
 				mtdp->in_exception = true;
+				/* the wrappers record their own frame address: a PLT call made below it comes
+				 * from the unwinder (--nest-libcall) and is not a landing-pad call.  The scripts
+				 * have no calls from inside the unwinder (rstep: they are untraced code), so the
+				 * throw point is put below every slot; the guard itself is checked end to end
+				 * (record -l on C++ programs, w_nestlib). */
+				mtdp->exception_frame = 0;
 				mcount_rstack_restore(mtdp);
 			}
 			if (op[0] == 'R')
